@@ -62,7 +62,8 @@ PROPS["C10"] = dict(
     stated_not_proved=["Ddo.C10.DomPruneOk (solver level: enabling the checker never changes the optimum) - watched by the solver correspondence runs, not proved"],
     level_text="Checker part (sentences 2-4 of the property) proved for every query sequence: dominated iff a previously presented state of the same depth and key is >= everywhere and > somewhere; otherwise recorded and everything it dominates dropped; the store is an antichain equal to the Pareto front of the history; the threshold is >= the presented value and sound; the comparator ranks a dominating state first. Solver part (sentence 1) is partial: not a theorem, watched by the solver-level correspondence runs with dominance enabled (engine seq, see C01).",
     level_note="Partial: sentence 1 (solver-level soundness of dominance pruning across diagrams) is stated (DomPruneOk) but not proved. Hypothesis of the checker theorems: the rule has one dimension per key (the code reads both states with nb_dimensions of the first).",
-    engines=[dict(name="dom"), dict(name="mdd", label="mdd_clean", args=[]), dict(name="seq", label="seq_dominance", args=["--focus-dominance"])],
+    engines=[dict(name="dom"), dict(name="mdd", label="mdd_clean", args=[]), dict(name="mdd", label="mdd_pooled_long", args=["--pooled", "--long-arcs"]),
+             dict(name="seq", label="seq_dominance", args=["--focus-dominance"])],
     trusted_base=TB_COMMON + ["dashmap entry API = finite map", "Vec::retain visits elements in order"],
     assumptions=["dominance rule of uniform dimension per key", "values are isize (InI) for threshold_sound"],
     rule="all query sequences of length <= 3 (quick) / 4 (thorough) over 22 operations (18 (coords, value) combinations on one key, a key-less state, a second key, a second depth, clear_layer), with and without value; random sequences of length 4..150 with 0..3 coordinates, isize extremes, out-of-range depths; comparator evaluated on all pairs of the first six presented entries; concurrent phases; non-trivial = a dominated verdict, a clear or a panic occurred; distinct = distinct sequence",
